@@ -5,7 +5,7 @@
     quirks <startFix> <noackFix> <rangeFix> <histFix>       (0/1; which repairs the tree has)
     reset | add <id> | del <ids> | create <g> <id|$> | destroy <g> | setid <g> <id|$>
     createc <g> <c> | delc <g> <c> | read <g> <c> <>|id> <count|-> <noack 0|1> | ack <g> <ids>
-    claim <g> <c> <0|huge> <force 0|1> <ids> | autoclaim <g> <c> <0|huge> <start> <count>
+    tnow <ms> | pidle <g> <id> | claim <g> <c> <0|huge|ms> <force 0|1> <ids> | autoclaim <g> <c> <0|huge> <start> <count>
     pending <g> | prange <g> <start|-> <end|+> <count> <c|->
   answered by the `Code` model as  `<reply> ;; S <stream ids> ;; G <g> <last> <byid> <byc> <cons> <total> <min> <max> ;; …`
   (byte-identical to harness/src/bin/impl_grp.rs on the real code), and
@@ -52,9 +52,11 @@ def showGroup (name : Name) (g : Group) : String :=
     s!"{p.1}={String.intercalate "+" (p.2.map showId)}")
   s!"G {name} {showId g.lastDelivered} {byid} {byc} {showCons g.consumers} {g.totalPending} {showOptId g.minPending} {showOptId g.maxPending}"
 
-def showSt (r : Reply) (s : St) : String :=
+def showStWith (reply : String) (s : St) : String :=
   let gs := (sortBy (·.1) s.groups).map fun p => " ;; " ++ showGroup p.1 p.2
-  s!"{showReply r} ;; S {showIds s.stream}" ++ String.join gs
+  s!"{reply} ;; S {showIds s.stream}" ++ String.join gs
+
+def showSt (r : Reply) (s : St) : String := showStWith (showReply r) s
 
 /-! ### parsing (malformed requests are rejected, never defaulted) -/
 
@@ -80,6 +82,10 @@ def parseBool (s : String) : Option Bool :=
 
 def parseIdle (s : String) : Option Nat :=
   if s == "0" then some 0 else if s == "huge" then some 1 else none
+
+/-- min-idle-time in milliseconds: `0`, `huge` (u64::MAX) or a number -/
+def parseMinIdle (s : String) : Option Nat :=
+  if s == "huge" then some 18446744073709551615 else num s
 
 def parseEntry (s : String) : Option PEntry :=
   match s.splitOn ":" with
@@ -227,6 +233,12 @@ def judge (s0 : St) (secs : List (List String)) : String :=
 structure DState where
   q : Quirks
   s : St
+  /-- the clock (`tnow <ms>`; 0 unless the real-time layer of the check sets it) -/
+  clock : Nat := 0
+  /-- `last_delivery` of the pending rows, per group -/
+  times : List (Name × Code.Times) := []
+
+def timesOf (d : DState) (g : Name) : Code.Times := (alGet g d.times).getD []
 
 def step (d : DState) (ws : List String) : DState × String :=
   match ws with
@@ -234,8 +246,12 @@ def step (d : DState) (ws : List String) : DState × String :=
     match parseBool a, parseBool b, parseBool c, parseBool e with
     | some a, some b, some c, some e => ({ d with q := ⟨a, b, c, e⟩ }, "ok")
     | _, _, _, _ => (d, "bad-op")
+  | ["tnow", ms] =>
+    match num ms with
+    | some ms => ({ d with clock := ms }, "ok")
+    | none => (d, "bad-op")
   | "judge" :: rest => (d, judge d.s (splitSections rest))
-  | ["reset"] => ({ d with s := St.empty }, showSt .ok St.empty)
+  | ["reset"] => ({ d with s := St.empty, clock := 0, times := [] }, showSt .ok St.empty)
   | ["add", id] =>
     match parseId id with
     | some id => let r := d.s.add id; ({ d with s := r.1 }, showSt r.2 r.1)
@@ -246,17 +262,50 @@ def step (d : DState) (ws : List String) : DState × String :=
     | none => (d, "bad-op")
   | ["create", g, id] =>
     match num g, (if id == "$" then some d.s.dollar else parseId id) with
-    | some g, some id => let r := St.create d.q d.s g id; ({ d with s := r.1 }, showSt r.2 r.1)
+    | some g, some id =>
+      let r := St.create d.q d.s g id
+      ({ d with s := r.1, times := if r.2 = .ok then alSet g [] d.times else d.times }, showSt r.2 r.1)
     | _, _ => (d, "bad-op")
   | ["destroy", g] =>
     match num g with
     | some g => let r := d.s.destroy g; ({ d with s := r.1 }, showSt r.2 r.1)
     | none => (d, "bad-op")
+  | ["claim", g, c, idle, force, ids] =>
+    -- XCLAIM with the real idle test (`Code.claimT`): min-idle in ms against the clock and the rows' last deliveries
+    match num g, num c, parseMinIdle idle, parseBool force, parseIds ids with
+    | some g, some c, some minIdle, some force, some ids =>
+      match alGet g d.s.groups with
+      | none => (d, showSt .nogroup d.s)
+      | some grp =>
+        let r := Code.claimT (grp, timesOf d g) c d.clock minIdle force ids
+        let s' := { d.s with groups := alSet g r.1.1 d.s.groups }
+        ({ d with s := s', times := alSet g r.1.2 d.times },
+         showSt (.ids (r.2.filter (fun x => d.s.stream.contains x))) s')
+    | _, _, _, _, _ => (d, "bad-op")
+  | ["pidle", g, id] =>
+    -- idle time XPENDING reports for one pending id
+    match num g, parseId id with
+    | some g, some id =>
+      match alGet g d.s.groups with
+      | none => (d, showSt .nogroup d.s)
+      | some grp =>
+        match pelFind id grp.byId with
+        | some _ => (d, showStWith (toString (d.clock - Code.lastOf (timesOf d g) id)) d.s)
+        | none => (d, showStWith "-" d.s)
+    | _, _ => (d, "bad-op")
   | _ =>
     match parseGOp d.s ws with
-    | some (g, op) => let r := St.gop d.q d.s g op; ({ d with s := r.1 }, showSt r.2 r.1)
+    | some (g, op) =>
+      let r := St.gop d.q d.s g op
+      -- deliveries into the PEL stamp the delivered rows with the clock
+      let times := match op, r.2 with
+        | .read _ frm _ false, .ids l =>
+          if !l.isEmpty && (frm.isNone || !d.q.histFix) then alSet g (Code.stamp (timesOf d g) l d.clock) d.times
+          else d.times
+        | _, _ => d.times
+      ({ d with s := r.1, times := times }, showSt r.2 r.1)
     | none => (d, "bad-op")
 
-def main : IO Unit := loop step ⟨Quirks.pinned, St.empty⟩
+def main : IO Unit := loop step { q := Quirks.pinned, s := St.empty }
 
 end Ferrous.Drv.Groups
